@@ -334,7 +334,12 @@ fn chunk_has_unmappable(enc: &'static Encoding, chunk: &[char]) -> bool {
     let mut e = enc.new_encoder();
     let mut dst = vec![0u8; s.len() * 4 + 32];
     let mut tr = 0usize;
+    let mut guard = 0usize;
     loop {
+        guard += 1;
+        if guard > s.len() + 8 {
+            return false;
+        }
         let (r, rd, _wr) = e.encode_from_utf8_without_replacement(&s[tr..], &mut dst, true);
         tr += rd;
         match r {
@@ -356,7 +361,13 @@ impl Pipe {
     fn feed(&mut self, bytes: &[u8], last: bool, viols: &mut Vec<Viol>) {
         let mut dst = vec![0u8; bytes.len() * 4 + 32];
         let mut tr = 0usize;
+        let mut guard = 0usize;
         loop {
+            guard += 1;
+            if guard > bytes.len() + 8 {
+                viols.push(viol("C12", "downstream-decoder-stuck", "the downstream decoder makes no progress on the encoder's output".into()));
+                break;
+            }
             let (r, rd, wr) = self.dec.decode_to_utf8_without_replacement(&bytes[tr..], &mut dst, last);
             tr += rd;
             self.text.push_str(&String::from_utf8_lossy(&dst[..wr]));
@@ -615,6 +626,17 @@ pub fn drive_enc(spec: &EncSpec, mode: EncMode, source: &mut dyn OpSource, mut p
                     write_ncr(&mut run.out, ch);
                 }
                 stale = c.out.clone();
+                if c.res == ERes::OutputFull {
+                    if spec.form16 && new_consumed < s16.len() && (0xD800..0xDC00).contains(&s16[new_consumed]) && new_chars < nchars && matches!(spec.text[new_chars], Unit::Scalar(_)) {
+                        run.probe("surrogate_pair_at_output_limit");
+                    }
+                    if c.had_unmappables {
+                        run.probe("ncr_then_outputfull");
+                    }
+                    if is_2022 && c.out.len() >= 3 && c.out[c.out.len() - 3] == 0x1B {
+                        run.probe("escape_at_buffer_end");
+                    }
+                }
                 last_full = c.res == ERes::OutputFull;
                 if last_full {
                     run.faults.backpressure += 1;
